@@ -1,5 +1,5 @@
-// Counterexample found by mirsym/z3 for property C09, template det_hidden_labeling: |x, y| { infdrange([x, y], &(1..=2)), diseqfd(x, y), q != x } with parameters []: two runs of the same query that differ only in the iteration order of the hash-based stores (insertion order vs every iteration reversd) give different answer sequences: ['_.0 where (_.0 != 1)'] vs ['_.0 where (_.0 != 2)'] (answer 0 differs)
-// Replay: /verif/check C09 --replay /verif/replay/cases/C09-det_hidden_labeling_order_dependent.rs
+// Counterexample found by mirsym/z3 for property C07, template fair_loop_body_diverges_after_answer: loop { conde { never(), q == p0 } } with parameters [0]: the first 3 answers are not produced within 2000000 MIR steps (a fair interleaving produces them)
+// Replay: /verif/check C07 --replay /verif/replay/cases/C07-fair_loop_body_diverges_after_answer_not_productive.rs
 #![allow(unused_imports, unused_variables, unused_mut)]
 use proto_vulcan::prelude::*;
 use proto_vulcan::lterm::LTerm;
@@ -89,7 +89,7 @@ pub fn twice(g: Goal<TU, TE>) -> Goal<TU, TE> {
     proto_vulcan!([g, g2])
 }
 
-const LIMIT: usize = 64;
+const LIMIT: usize = 3;
 
 #[test]
 fn replay() {
@@ -104,14 +104,10 @@ fn replay() {
 }
 
 fn body() {
+    let p0: T = LTerm::from(0);
     let query = proto_vulcan_query!(|q| {
-        |x, y| { infdrange([x, y], &(1..=2)), diseqfd(x, y), q != x }
+        loop { conde { never(), q == p0 } }
     });
-    let re = |s: String| { let mut o = String::new(); let mut it = s.chars().peekable();
-        while let Some(c) = it.next() { o.push(c); if c == '_' { if it.peek() == Some(&'.') { it.next(); while it.peek().map_or(false, |d| d.is_ascii_digit()) { it.next(); } } } } o };
-    let first: Vec<String> = query.run().take(LIMIT).map(|r| re(format!("{}", r.q))).collect();
-    for _ in 0..400 {
-        let again: Vec<String> = query.run().take(LIMIT).map(|r| re(format!("{}", r.q))).collect();
-        assert_eq!(first, again, "the same query produced two different answer sequences in one process");
-    }
+    let n = query.run().take(LIMIT).count();
+    assert_eq!(n, LIMIT);
 }
